@@ -265,6 +265,12 @@ func cmdCheck(id string, args []string) int {
 			r := <-wch
 			if r.rr.Outcome == "clean" {
 				hs.WitnessOK++
+			} else if strings.HasPrefix(r.rr.Outcome, "assert-fail:") {
+				// the native run is the ground truth: the real code fails a property assertion on this input
+				violations++
+				dir := filepath.Join(ld.verif, "replays", id, fmt.Sprintf("%s-witness-%d", spec.Name, r.i+1))
+				fmt.Printf("VIOLATION property=%s replay=%s\n", id, dir)
+				fmt.Printf("  harness=%s native replay of a path witness fails %s (environment-dependent behaviour the model did not pin, e.g. the clock)\n", spec.Name, r.rr.Outcome)
 			} else {
 				notes = append(notes, fmt.Sprintf("%s: witness %d of a completed path did not run clean natively (%s): ENCODING-MISMATCH, nothing claimed for this harness", spec.Name, r.i+1, r.rr.Outcome))
 				fmt.Printf("ENCODING-MISMATCH property=%s harness=%s witness %d native outcome %s\n", id, spec.Name, r.i+1, r.rr.Outcome)
@@ -289,6 +295,18 @@ func cmdCheck(id string, args []string) int {
 			nrep++
 			dir := filepath.Join(ld.verif, "replays", id, fmt.Sprintf("%s-%d", spec.Name, nrep))
 			rr := replayP(ld, hs.fn, f, dir, spec.Params)
+			if !rr.Confirms && f.Model != nil {
+				if _, ok := f.Model.Scalars["tz.hours"]; ok {
+					// time-zone dependent: the native clock is not the model's; retry at the extreme zones
+					for _, h := range []int64{14, -12} {
+						f.Model.Scalars["tz.hours"] = uint64(h)
+						if rr2 := replayP(ld, hs.fn, f, dir, spec.Params); rr2.Confirms {
+							rr = rr2
+							break
+						}
+					}
+				}
+			}
 			f.Replay = rr
 			if rr.Confirms {
 				violations++
